@@ -194,7 +194,7 @@ func TestOracle(t *testing.T) {
 		raw.Emit(m)
 	}
 	for ci, c := range cases {
-		if (ci+seed)%stride != 0 {
+		if int((uint32(ci)*2654435761)>>9)%stride != seed%stride { // a pseudo-random 1/stride slice, not every stride-th case
 			continue
 		}
 		logs++
